@@ -19,6 +19,11 @@
 //! RETURN label x a label inside FOR / FOR STEP / CASE / CASE ELSE and two-level nests x the jump before / behind /
 //! in a sibling block / in the enclosing block / inside / leaving x main module / SUB: the checker refuses the static
 //! kinds (d540f83), the VM answers NEXT without FOR / Illegal function call for the dynamic ones (18f92cd).
+//! (f) `arg-fault` (gen_prog::arg_fault_programs, after a wave-9 seed): a run-time fault raised INSIDE an argument list
+//! (a failing built-in function, a subscript out of range, a division by zero as an argument of a user SUB / FUNCTION,
+//! of another built-in, of PRINT, as a subscript, as a DIM bound) x module level / FOR / one and two procedures deep x
+//! ON ERROR RESUME NEXT / handler + RESUME NEXT / RESUME / RESUME label / no handler, followed by more calls and the
+//! procedures' normal returns (3 960 programs).
 //! A sample of the accepted programs is also given to the proved checker `wfCheck` (Lean driver), the
 //! hypothesis of theorem `wf_no_vm_failure`; observed error codes are compared with the extracted table.
 
@@ -31,7 +36,7 @@ use std::time::{Duration, Instant};
 use rb_harness::builtins::{self as bi, Ctx, Outcome, Shape, Special, Ty, ALL_SHAPES, TYS};
 use rb_harness::corpus;
 use rb_harness::driver::ask;
-use rb_harness::gen_prog::{generate, Opts};
+use rb_harness::gen_prog::{Ext, Opts, arg_fault_programs, generate_ext};
 use rb_harness::instr_sx;
 use rb_harness::json::J;
 use rb_harness::report::{Failure, Kind, Report};
@@ -270,11 +275,42 @@ fn corpus_inputs(rng: &mut Rng, out: &mut Vec<Input>) {
     }
 }
 
-fn generated_inputs(rng: &mut Rng, n: usize, out: &mut Vec<Input>) {
+fn generated_inputs(rng: &mut Rng, n: usize, out: &mut Vec<Input>, rep: &mut Report) {
     for k in 0..n {
         let o = Opts { on_error: k % 2 == 0, faults: true, ..Opts::default() };
-        let (text, _) = generate(rng, &o);
+        // RESUME label targets also inside FOR bodies / SELECT CASE blocks (C15's checker does not cover those)
+        let (text, feats) = generate_ext(rng, &o, &Ext { block_labels: true, resume_label_in_for_select: true });
+        // how many of the generated programs have a label inside a block with a jump to it (after a wave-9 seed)
+        let mut any = false;
+        for f in feats.iter().filter(|f| f.starts_with("label-in-") || f.starts_with("jump-") || f.starts_with("resume-label-")) {
+            rep.bump(&format!("generated.feature.{}", f));
+            any = true;
+        }
+        if any {
+            rep.bump("generated.feature.any-block-label");
+        }
         out.push(Input { family: "generated".into(), text, stdin: random_bytes(rng) });
+    }
+}
+
+/// Family `arg-fault` (gen_prog::arg_fault_programs, after a wave-9 seed): one run-time fault raised inside an
+/// argument list (a failing built-in function, a subscript out of range, a division by zero as an argument of a user
+/// SUB / FUNCTION, of another built-in, of PRINT, as a subscript, as a DIM bound), at the module level and one or two
+/// procedures deep, under every handler mode and without a handler, followed by more calls and the procedures' normal
+/// returns: whatever the abandoned call left on the context / argument / value stacks is popped by the wrong party.
+fn arg_fault_inputs(out: &mut Vec<Input>) {
+    for (name, text) in arg_fault_programs() {
+        let mode = name.rsplit('/').next().unwrap_or("?").to_owned();
+        out.push(Input { family: format!("arg-fault:{}", mode), text, stdin: vec![] });
+    }
+}
+
+/// the directed family `block-labels` of `gen_prog.rs`: a label inside a block of every kind and a jump to it (GOTO /
+/// RESUME label) from the same block, a sibling block or a nested construct, at the module level and in procedures
+fn block_label_inputs(out: &mut Vec<Input>) {
+    for (name, text) in rb_harness::gen_prog::block_label_family() {
+        let what = name.split('/').nth(3).unwrap_or("").to_owned();
+        out.push(Input { family: format!("block-labels:{}", what), text, stdin: vec![] });
     }
 }
 
@@ -1183,7 +1219,9 @@ fn main() {
     // phase 2: everything
     let mut inputs: Vec<Input> = vec![];
     corpus_inputs(&mut rng, &mut inputs);
-    generated_inputs(&mut rng, if thorough { 6000 } else { 350 }, &mut inputs);
+    generated_inputs(&mut rng, if thorough { 6000 } else { 350 }, &mut inputs, &mut rep);
+    arg_fault_inputs(&mut inputs);
+    block_label_inputs(&mut inputs);
     builtin_inputs(&mut rng, &accepted, thorough, &mut inputs);
     statement_inputs(&mut rng, thorough, &mut inputs);
     nested_inputs(&mut inputs);
@@ -1239,6 +1277,16 @@ fn main() {
                             note: format!("family {}", inp.family),
                         });
                     }
+                }
+                if fam == "arg-fault" {
+                    rep.fail(Failure {
+                        kind: Kind::ModelVsImpl,
+                        signature: "family-program-rejected:arg-fault".into(),
+                        input: inp.text.clone(),
+                        implementation: format!("rejected by the front end: {}", m),
+                        expected: "every program of the directed family is an accepted program".into(),
+                        note: "the family is off".into(),
+                    });
                 }
                 if let Some(f) = dump.as_mut() {
                     if inp.family.starts_with("stmt:") {
@@ -1334,8 +1382,22 @@ fn main() {
     let stride = (accepted_programs.len() / n_wf.max(1)).max(1);
     for k in accepted_programs.iter().step_by(stride) {
         let inp = &inputs[*k];
-        if inp.family == "corpus" || inp.family == "generated" || inp.family == "corpus+stdin" {
-            continue; // C15 checks those
+        if inp.family == "corpus" || inp.family == "generated" || inp.family == "corpus+stdin" || inp.family == "block-labels:resume" {
+            // C15 checks those.  (block-labels:resume: the checker takes a RESUME label target for an activation entry at
+            // relative depth zero, so a target inside a FOR body / SELECT CASE block is outside its fragment: run only)
+            continue;
+        }
+        if matches!(
+            inp.family.as_str(),
+            "jump-into-block:gosub" | "jump-into-block:gosub-return-behind" | "jump-into-block:return-label" | "jump-into-block:resume-label"
+        ) {
+            // same reason: a GOSUB / RETURN label / RESUME label whose target lies inside a FOR body or a CASE block (legal
+            // when the block encloses the jump, or decided at run time) has no certificate with roots at relative depth
+            // zero: wf_no_vm_failure does not speak about such programs; they are run (never a panic), not certified.
+            // (A first version reported these as impl-vs-property failures of the wfCheck sample: a false alarm of the
+            // checker's fragment, corrected here; the GOTO programs of the family stay in the sample.)
+            rep.bump("wf-sample.skipped.jump-into-block(gosub/return/resume edge into a block)");
+            continue;
         }
         if matches!(results[*k], Res::Done(Outcome::Panic { .. }) | Res::Hang | Res::Abort(_)) {
             continue;
@@ -1417,8 +1479,16 @@ fn main() {
                     kind: Kind::ImplVsProperty,
                     // a RETURN label / RESUME label into a FOR body or a CASE block is accepted (where it comes from is
                     // only known at run time) and its code has no stack certificate: kept apart from every other program
-                    signature: match t.lines().next().and_then(|l| l.strip_prefix("' ")).and_then(|l| l.split(' ').next()) {
-                        Some(kind @ ("return-label" | "resume-label")) => format!("wf:{}|jump-into-block({})", names[i], kind),
+                    // a label inside the body of a FOR ... STEP loop is emitted twice (the body is generated once per step
+                    // sign: recorded finding C05-a); the programs of the jump-into-block family that put their label there
+                    // say so in their header comment and get a signature of their own
+                    signature: match t.lines().next().and_then(|l| l.strip_prefix("' ")).map(|l| l.split(' ').collect::<Vec<_>>()) {
+                        Some(ws) if matches!(ws.first(), Some(&("return-label" | "resume-label"))) => {
+                            format!("wf:{}|jump-into-block({})", names[i], ws[0])
+                        }
+                        Some(ws) if ws.iter().any(|w| w.contains("forstep")) && ws.contains(&"inside") => {
+                            format!("wf:{}|label-in-for-step-body", names[i])
+                        }
                         _ => format!("wf:{}", names[i]),
                     },
                     input: t.clone(),
